@@ -100,6 +100,7 @@ def mapCase (id : String) (payload : List Sexp) : List String :=
   | some c =>
     match c.prop with
     | "C05" => both id (obs15 c.inp ++ obsRT c.inp) (spec15 c.inp ++ specRT c.inp) (region05 c.inp)   -- obs05 + write counts + round trip
+    | "C01" => both id (obs01 c.inp) allOk (region01 c.inp)
     | "C15" => both id (obs15 c.inp) (spec15 c.inp) (region15 c.inp)
     | "C09" => both id (obs09 c.inp c.srcSlots c.destSlots c.masks c.fmasks)
                  (spec09 c.inp c.srcSlots c.destSlots c.masks c.fmasks) (region09 c.inp)
